@@ -33,3 +33,28 @@ Fixpoint pgw_run (N M : nat) (s : pgw) (arr : list nat)
   | t :: r => let '(s1, o) := pgw_step N M s t in
               let '(s2, os) := pgw_run N M s1 r in (s2, o :: os)
   end.
+
+(* ---- the arrival counter as the code keeps it ----
+   An integer field of [bits] bits (Gen/Facts.v src_join_counter_bits, read off struct parallelGateway) that either
+   starts again at 0 when the gateway fires ([resets] = true, src_join_counter_resets) or runs on and is looked at
+   modulo the number of incoming flows. The unbounded [pgw_step] above is what the property speaks about; the
+   theorems C03_counter_of_the_source_is_exact / C03_running_narrow_counter_refuted relate the two. *)
+From Coq Require Import NArith.
+
+Definition wrap (bits : BinNums.N) (c : nat) : nat := BinNat.N.to_nat (BinNat.N.modulo (BinNat.N.of_nat c) (BinNat.N.pow 2 bits)).
+
+Definition pgw_step_w (bits : BinNums.N) (resets : bool) (N M : nat) (s : pgw) (t : nat)
+  : pgw * list (nat * option (nat * nat)) :=
+  let c := wrap bits (S (cnt s)) in
+  let p := parked s ++ [t] in
+  if (if resets then c =? N else c mod N =? 0)
+  then ({| cnt := if resets then 0 else c; parked := [] |}, combine p (distribute (length p) M))
+  else ({| cnt := c; parked := p |}, []).
+
+Fixpoint pgw_run_w (bits : BinNums.N) (resets : bool) (N M : nat) (s : pgw) (arr : list nat)
+  : pgw * list (list (nat * option (nat * nat))) :=
+  match arr with
+  | [] => (s, [])
+  | t :: r => let '(s1, o) := pgw_step_w bits resets N M s t in
+              let '(s2, os) := pgw_run_w bits resets N M s1 r in (s2, o :: os)
+  end.
